@@ -351,6 +351,9 @@ def _expand_test_aliases(stmts: list) -> list:
         st = out[i]
         if isinstance(st, ast.Assign) and len(st.targets) == 1 and isinstance(st.targets[0], ast.Name) and _pure_test(st.value):
             name = st.targets[0].id
+            if name in _reads(st.value):
+                i += 1
+                continue
             rest = out[i + 1:]
             stores = [n for s in rest for n in ast.walk(s) if isinstance(n, ast.Name) and isinstance(n.ctx, ast.Store) and
                       n.id in (_reads(st.value) | {name})]
